@@ -4,7 +4,7 @@
     successor whose trace has a lasso is not queued; lasso-free traces over the finitely many nodes of the graph are
     finitely many; with constant access paths the keys range over the finite list [keys_for g aps]; every loop
     iteration dequeues one node and enqueues only nodes whose key is added to [seen] for the first time.  *)
-From Coq Require Import List PArith NArith ZArith Bool FMapPositive Lia Permutation.
+From Coq Require Import List PArith NArith ZArith Bool FMapPositive Lia Permutation Sorted.
 From Argot Require Import Model.Visit Proofs.VisitBase Proofs.VisitInv.
 Import ListNotations.
 
@@ -34,13 +34,26 @@ Definition dom_list (g : graph) : list id := map fst (PositiveMap.elements (g_no
 
 Definition traces_of (g : graph) : list (list id) := lists_upto (dom_list g) (length (dom_list g)).
 
-(** the finite universe of keys for fixed access paths *)
-Definition keys_for (g : graph) (aps : list positive) : list (list positive) :=
-  flat_map (fun n => flat_map (fun t => flat_map (fun c => [key_of n t c false aps; key_of n t c true aps])
-                                                 (traces_of g)) (traces_of g)) (dom_list g).
+(** the finite universe of keys, for access paths ranging over the finite list [APS] *)
+Definition keys_for (g : graph) (APS : list (list positive)) : list (list positive) :=
+  flat_map (fun aps =>
+    flat_map (fun n => flat_map (fun t => flat_map (fun c => [key_of n t c false aps; key_of n t c true aps])
+                                                   (traces_of g)) (traces_of g)) (dom_list g)) APS.
 
-(** the fuel that always suffices: computed from the graph only *)
-Definition fuel_bound (g : graph) : nat := S (S (length (keys_for g [1%positive]))).
+(** the fuel that always suffices in path-insensitive mode: computed from the graph only *)
+Definition fuel_bound (g : graph) : nat := S (S (length (keys_for g [[1%positive]]))).
+
+(** all relative out-paths occurring on edges of the graph *)
+Definition path_list (g : graph) : list positive :=
+  flat_map (fun kn : positive * node =>
+              flat_map (fun de : id * list edgeinfo => flat_map (fun e => map snd (e_relpath e)) (snd de)) (n_out (snd kn)))
+           (PositiveMap.elements (g_nodes g)).
+
+(** access paths of the REPAIRED [addNext]: the initial [""], or a duplicate-free list of paths of the graph *)
+Definition aps_fixed (g : graph) : list (list positive) :=
+  [1%positive] :: lists_upto (path_list g) (length (path_list g)).
+
+Definition fuel_bound_fs (g : graph) : nat := S (S (length (keys_for g (aps_fixed g)))).
 
 Section Term.
   Variable g : graph.
@@ -49,7 +62,11 @@ Section Term.
   Variable ord : oracle.
   Variable src : id.
   Hypothesis Hord : ord_perm ord.
-  Hypothesis Hpi : path_insensitive g.
+  Variable APS : list (list positive).
+  (** the access paths stay in the finite set [APS] *)
+  Hypothesis Haps : forall s j cur cd nv,
+    make_next g P cfg ord s j cur cd = Ok (Some nv) -> cand_inv g cur cd -> wf_v g cur ->
+    In (v_aps cur) APS -> In (v_aps nv) APS.
 
   Lemma in_dom_list n : in_dom g n -> In n (dom_list g).
   Proof.
@@ -65,24 +82,26 @@ Section Term.
     apply NoDup_incl_length; [|exact Hi]. eapply NoDup_map_inv; eauto.
   Qed.
 
-  Lemma key_in_keys v aps : in_dom g (v_node v) -> wf_v g v -> v_aps v = aps -> In (vkey v) (keys_for g aps).
+  Lemma key_in_keys v : in_dom g (v_node v) -> wf_v g v -> In (v_aps v) APS -> In (vkey v) (keys_for g APS).
   Proof.
-    intros Hd [Ht Hc] Ha. unfold keys_for. change (vkey v) with (key_of (v_node v) (v_trace v) (v_ctrace v) (v_kind v) (v_aps v)). rewrite Ha.
+    intros Hd [Ht Hc] Ha. unfold keys_for.
+    change (vkey v) with (key_of (v_node v) (v_trace v) (v_ctrace v) (v_kind v) (v_aps v)).
+    apply in_flat_map. exists (v_aps v). split; [exact Ha|].
     apply in_flat_map. exists (v_node v). split; [apply in_dom_list; exact Hd|].
     apply in_flat_map. exists (v_trace v). split; [apply wf_trace_traces; exact Ht|].
     apply in_flat_map. exists (v_ctrace v). split; [apply wf_trace_traces; exact Hc|].
     destruct (v_kind v); simpl; auto.
   Qed.
 
-  Definition Qv (aps : list positive) (v : vnode) : Prop := wf_v g v /\ v_aps v = aps.
+  Definition Qv (v : vnode) : Prop := wf_v g v /\ In (v_aps v) APS.
 
-  Lemma add_all_inv aps : forall cds s j cur q seen q' seen' S,
+  Lemma add_all_inv : forall cds s j cur q seen q' seen' S,
     add_all g P cfg ord s j cur cds q seen = Ok (q', seen') ->
-    (forall cd, In cd cds -> cand_inv g cur cd) -> Qv aps cur ->
-    represents S seen -> NoDup S -> incl S (keys_for g aps) ->
-    exists new S', q' = q ++ new /\ represents S' seen' /\ NoDup S' /\ incl S' (keys_for g aps) /\
-                   length S' = length S + length new /\ Forall (Qv aps) new.
-  Proof using Hpi.
+    (forall cd, In cd cds -> cand_inv g cur cd) -> Qv cur ->
+    represents S seen -> NoDup S -> incl S (keys_for g APS) ->
+    exists new S', q' = q ++ new /\ represents S' seen' /\ NoDup S' /\ incl S' (keys_for g APS) /\
+                   length S' = length S + length new /\ Forall Qv new.
+  Proof using Haps.
     induction cds as [|cd cds IH]; simpl; intros s j cur q seen q' seen' S H Hc Hq Hr Hn Hi.
     - injection H as <- <-. exists [], S. rewrite app_nil_r.
       split; [reflexivity|]. split; [exact Hr|]. split; [exact Hn|]. split; [exact Hi|]. split; [simpl; lia|constructor].
@@ -91,26 +110,26 @@ Section Term.
       destruct o as [nv|].
       + destruct Hq as [Hw Ha].
         pose proof (make_next_inv g P cfg ord s j cur cd nv Hm (Hc cd (or_introl eq_refl)) Hw) as (Hwn & Hdn & _).
-        pose proof (make_next_aps_const g P cfg ord s j cur cd nv Hpi Hm (Hc cd (or_introl eq_refl)) Hw) as Han.
+        pose proof (Haps s j cur cd nv Hm (Hc cd (or_introl eq_refl)) Hw Ha) as Han.
         destruct (lt_mem (vkey nv) seen) eqn:Em.
         * eapply IH; eauto. split; assumption.
         * assert (~ In (vkey nv) S) as Hni by (intro Hin; apply Hr in Hin; congruence).
           destruct (IH _ _ _ _ _ _ _ (vkey nv :: S) H Hc' (conj Hw Ha)) as (new & S' & -> & Hr' & Hn' & Hi' & Hl' & Hf').
           -- apply represents_add. exact Hr.
           -- constructor; assumption.
-          -- intros k [<-|Hk]; [|apply Hi; exact Hk]. apply key_in_keys; auto. congruence.
+          -- intros k [<-|Hk]; [|apply Hi; exact Hk]. apply key_in_keys; auto.
           -- exists (nv :: new), S'. rewrite <- app_assoc. simpl.
              split; [reflexivity|]. split; [exact Hr'|]. split; [exact Hn'|]. split; [exact Hi'|]. split.
              ++ simpl in Hl'. lia.
-             ++ constructor; [|exact Hf']. split; [exact Hwn|congruence].
+             ++ constructor; [|exact Hf']. split; [exact Hwn|exact Han].
       + eapply IH; eauto.
   Qed.
 
-  Lemma loop_terminates aps : forall fuel st S,
-    represents S (st_seen st) -> NoDup S -> incl S (keys_for g aps) -> Forall (Qv aps) (st_queue st) ->
-    length (st_queue st) + (length (keys_for g aps) - length S) < fuel ->
+  Lemma loop_terminates : forall fuel st S,
+    represents S (st_seen st) -> NoDup S -> incl S (keys_for g APS) -> Forall Qv (st_queue st) ->
+    length (st_queue st) + (length (keys_for g APS) - length S) < fuel ->
     forall st', loop g P cfg ord src fuel st <> OutOfFuel st'.
-  Proof using Hord Hpi.
+  Proof using Hord Haps.
     induction fuel as [|fuel IH]; intros st S Hr Hn Hi Hq Hm st'.
     - lia.
     - simpl. destruct (st_queue st) as [|cur q] eqn:Eq; [discriminate|].
@@ -123,11 +142,24 @@ Section Term.
         * eapply IH with (S := S); simpl; eauto. lia.
       + destruct (expand g cfg ord src (st_step st) cur) as [cds|c] eqn:Ee; [|discriminate].
         destruct (add_all g P cfg ord (st_step st) 16 cur cds q (st_seen st)) as [[q' seen']|c] eqn:Ea; [|discriminate].
-        destruct (add_all_inv aps _ _ _ _ _ _ _ _ S Ea (expand_inv g cfg ord src Hord _ _ _ Ee) Hcur Hr Hn Hi)
+        destruct (add_all_inv _ _ _ _ _ _ _ _ S Ea (expand_inv g cfg ord src Hord _ _ _ Ee) Hcur Hr Hn Hi)
           as (new & S' & -> & Hr' & Hn' & Hi' & Hl' & Hf').
         eapply IH with (S := S'); simpl; eauto.
         * apply Forall_app. split; assumption.
         * pose proof (NoDup_incl_length Hn' Hi'). rewrite app_length. lia.
+  Qed.
+
+  Lemma visit_terminates_gen t alarms :
+    wf_trace g t -> In [1%positive] APS ->
+    forall st, visit g P cfg ord src (S (S (length (keys_for g APS)))) t alarms <> OutOfFuel st.
+  Proof using Hord Haps.
+    intros Ht H1 st. unfold visit.
+    eapply loop_terminates with (S := []).
+    - apply represents_empty.
+    - constructor.
+    - intros k [].
+    - simpl. constructor; [|constructor]. split; [|exact H1]. split; [exact Ht|apply wf_trace_nil].
+    - simpl. lia.
   Qed.
 
 End Term.
@@ -139,11 +171,96 @@ Theorem visit_terminates_lemma :
     ord_perm ord -> path_insensitive g -> wf_trace g t ->
     forall st, visit g P cfg ord src (fuel_bound g) t alarms <> OutOfFuel st.
 Proof.
-  intros g P cfg ord src t alarms Hord Hpi Ht st. unfold visit, fuel_bound.
-  eapply (loop_terminates g P cfg ord src Hord Hpi [1%positive]) with (S := []).
-  - apply represents_empty.
-  - constructor.
-  - intros k [].
-  - simpl. constructor; [|constructor]. split; [|reflexivity]. split; [exact Ht|apply wf_trace_nil].
-  - simpl. lia.
+  intros g P cfg ord src t alarms Hord Hpi Ht st. unfold fuel_bound.
+  apply (visit_terminates_gen g P cfg ord src Hord [[1%positive]]); [|exact Ht|left; reflexivity].
+  intros s j cur cd nv Hm Hc Hw [E|[]].
+  left. rewrite (make_next_aps_const g P cfg ord s j cur cd nv Hpi Hm Hc Hw). exact E.
+Qed.
+
+(** ** The repaired [addNext] terminates in field-sensitive mode as well *)
+
+Section Fixed.
+  Variable g : graph.
+
+  Lemma ins_path_in x l y : In y (ins_path g x l) -> y = x \/ In y l.
+  Proof.
+    induction l as [|z l IH]; simpl.
+    - intros [<-|[]]. auto.
+    - destruct (Pos.compare (g_prank g x) (g_prank g z)).
+      + intros H. right. exact H.
+      + intros [<-|H]; [auto|right; exact H].
+      + intros [<-|H]; [right; left; reflexivity|]. destruct (IH H) as [->|H']; [auto|right; right; exact H'].
+  Qed.
+
+  Lemma sort_dedup_in l y : In y (sort_dedup g l) -> In y l.
+  Proof.
+    induction l as [|x l IH]; simpl; [auto|]. intros H. apply ins_path_in in H as [->|H]; [auto|right; apply IH; exact H].
+  Qed.
+
+  (** strictly increasing ranks *)
+  Definition rsorted (l : list positive) : Prop :=
+    StronglySorted (fun a b => Pos.lt (g_prank g a) (g_prank g b)) l.
+
+  Lemma ins_path_sorted x : forall l, rsorted l -> rsorted (ins_path g x l).
+  Proof.
+    induction l as [|z l IH]; simpl; intros Hs.
+    - constructor; constructor.
+    - inversion Hs as [|? ? Hl Hz]; subst.
+      destruct (Pos.compare (g_prank g x) (g_prank g z)) eqn:Ec.
+      + exact Hs.
+      + apply Pos.compare_lt_iff in Ec. constructor; [exact Hs|].
+        constructor; [exact Ec|]. rewrite Forall_forall in *. intros y Hy. eapply Pos.lt_trans; [exact Ec|apply Hz; exact Hy].
+      + apply Pos.compare_gt_iff in Ec. constructor; [apply IH; exact Hl|].
+        rewrite Forall_forall in *. intros y Hy. apply ins_path_in in Hy as [->|Hy]; [exact Ec|apply Hz; exact Hy].
+  Qed.
+
+  Lemma sort_dedup_sorted l : rsorted (sort_dedup g l).
+  Proof. induction l as [|x l IH]; simpl; [constructor|apply ins_path_sorted; exact IH]. Qed.
+
+  Lemma rsorted_nodup l : rsorted l -> NoDup l.
+  Proof.
+    induction l as [|x l IH]; intros Hs; [constructor|].
+    inversion Hs as [|? ? Hl Hx]; subst. constructor; [|apply IH; exact Hl].
+    intros Hin. rewrite Forall_forall in Hx. specialize (Hx x Hin). apply Pos.lt_irrefl in Hx. exact Hx.
+  Qed.
+
+  Lemma edge_paths_in_list n nd dst eis e io :
+    node_of g n = Some nd -> In (dst, eis) (n_out nd) -> In e eis -> In io (e_relpath e) -> In (snd io) (path_list g).
+  Proof.
+    intros Hn Hd He Hio. unfold path_list, node_of in *. apply PositiveMap.elements_correct in Hn.
+    apply in_flat_map. exists (n, nd). split; [exact Hn|]. simpl.
+    apply in_flat_map. exists (dst, eis). split; [exact Hd|]. simpl.
+    apply in_flat_map. exists e. split; [exact He|]. apply in_map. exact Hio.
+  Qed.
+End Fixed.
+
+Theorem visit_terminates_fixed_lemma :
+  forall (g : graph) (P : preds) (cfg : config) (ord : oracle) (src : id) (t : list id) (alarms : N),
+    ord_perm ord -> c_fixaps cfg = true -> wf_trace g t ->
+    forall st, visit g P cfg ord src (fuel_bound_fs g) t alarms <> OutOfFuel st.
+Proof.
+  intros g P cfg ord src t alarms Hord Hfix Ht st. unfold fuel_bound_fs.
+  apply (visit_terminates_gen g P cfg ord src Hord (aps_fixed g)); [|exact Ht|left; reflexivity].
+  intros s j cur cd nv Hm Hc Hw Hin.
+  pose proof (make_next_inv g P cfg ord s j cur cd nv Hm Hc Hw) as (_ & _ & _ & _ & _ & _ & _ & Hn & _).
+  destruct Hc as (_ & _ & He).
+  unfold next_aps in Hn. rewrite Hfix in Hn.
+  destruct (N.eqb (e_nin (c_edge cd)) 0 || (N.eqb (e_nin (c_edge cd)) 1 && e_ee (c_edge cd))).
+  - destruct (v_aps cur); [discriminate|]. injection Hn as <-. exact Hin.
+  - match type of Hn with context [sort_dedup g ?l] => set (comp := l) in * end.
+    destruct (sort_dedup g comp) as [|a l'] eqn:Esd; [discriminate|]. injection Hn as <-. rewrite <- Esd.
+    right. apply lists_upto_complete.
+    + apply NoDup_incl_length; [apply (rsorted_nodup g); apply sort_dedup_sorted|].
+      intros y Hy. apply sort_dedup_in in Hy. unfold comp in Hy.
+      apply in_flat_map in Hy as (io & Hio & Hy). apply (ord_in _ Hord) in Hio.
+      apply in_flat_map in Hy as (ap & _ & Hy). destruct (g_pfx g (fst io) ap); [|destruct Hy].
+      destruct Hy as [<-|[]].
+      destruct He as [E|(n & nd & dst & eis & H1 & H2 & H3)]; [rewrite E in Hio; destruct Hio|].
+      eapply edge_paths_in_list; eauto.
+    + intros y Hy. apply sort_dedup_in in Hy. unfold comp in Hy.
+      apply in_flat_map in Hy as (io & Hio & Hy). apply (ord_in _ Hord) in Hio.
+      apply in_flat_map in Hy as (ap & _ & Hy). destruct (g_pfx g (fst io) ap); [|destruct Hy].
+      destruct Hy as [<-|[]].
+      destruct He as [E|(n & nd & dst & eis & H1 & H2 & H3)]; [rewrite E in Hio; destruct Hio|].
+      eapply edge_paths_in_list; eauto.
 Qed.
